@@ -32,6 +32,8 @@
  *   get <enc> <pathhex>[,<pathhex>...]              elements with these paths (value = index) are put in the
  *                                                   harness peer; real get_elements with params {"path":<enc>}
  *        -> "sel <i>,<j>,..." | "sel -" | "err <code> <reason hex> | leak=<bytes>"
+ *   sizes                                           the LP64 sizes and config values the model's allocation arithmetic uses
+ *        -> "sizes pm=<sizeof(struct path_matcher)> pe=<sizeof(pm->path_elements)> st=<sizeof(size_t)> cap=<heap cap bytes> max=<max matchers>"
  *   end                                             release everything
  *        -> "end | prev=<leak>"
  *
@@ -460,6 +462,11 @@ int main(void)
 		else if (strcmp(w[0], "rule") == 0 && nw >= 2) op_rule(w[1], w[2]);
 		else if (strcmp(w[0], "match") == 0 && nw == 2) op_match(w[1]);
 		else if (strcmp(w[0], "get") == 0 && nw == 3) op_get(w[1], w[2]);
+		else if (strcmp(w[0], "sizes") == 0) {
+			struct path_matcher *pm = NULL;
+			printf("sizes pm=%zu pe=%zu st=%zu cap=%zu max=%d\n", sizeof(*pm), sizeof(pm->path_elements), sizeof(size_t),
+			       (size_t)CONFIG_MAX_HEAPSIZE_IN_KBYTE * 1024, (int)CONFIG_MAX_NUMBERS_OF_MATCHERS_IN_FETCH);
+		}
 		else if (strcmp(w[0], "end") == 0) { long prev = release_previous(); printf("end | prev=%ld\n", prev); }
 		else puts("bad_op");
 		fflush(stdout);
